@@ -1,7 +1,81 @@
 import WhVerif.Model.C07
 import WhVerif.Spec.C07
+import WhVerif.Lemmas.C07
+import WhVerif.Lemmas.C07Term
+/-!
+# C07 — read selection never exceeds the coverage cap and leaves no admissible read out
+
+All theorems are about `WhVerif.C07.readselection fixed reads k bridging choices`
+(`fixed = false`: the code as it is, with defect F9; `fixed = true`: the repaired code), for every read
+list, every cap, both settings of bridging and every list of tie choices of the abstract priority queue.
+-/
 namespace WhVerif.Props.C07
 open WhVerif.C07
-theorem placeholder (r : Read) (p : Nat) : r.spans p = true → r.first ≤ p := by
-  intro h; simp [Read.spans] at h; exact h.1
+
+/-- unpacking a successful run -/
+theorem ok_iff {fixed : Bool} {reads : List Read} {k : Nat} {br : Bool} {cs : List Nat} {sel : List Nat}
+    (h : readselection fixed reads k br cs = .ok sel) :
+    (∀ r ∈ reads, 2 ≤ r.pos.length) ∧ sel = (phases fixed reads k br cs).2.selected := by
+  unfold readselection at h
+  split at h
+  · cases h
+  · rename_i h2
+    split at h
+    · cases h
+    · simp only at h
+      split at h
+      · cases h
+      · simp only [Outcome.ok.injEq] at h
+        refine ⟨?_, h.symm⟩
+        intro r hr
+        simp only [List.any_eq_true, decide_eq_true_eq, not_exists, not_and, Nat.not_lt] at h2
+        exact h2 r hr
+
+/-- **subset**: the result is a duplicate-free set of indices of input reads -/
+theorem subset (fixed : Bool) (reads : List Read) (k : Nat) (br : Bool) (cs : List Nat) (sel : List Nat)
+    (h : readselection fixed reads k br cs = .ok sel) :
+    sel.Nodup ∧ ∀ i ∈ sel, i < reads.length := by
+  obtain ⟨-, rfl⟩ := ok_iff h
+  have := (phases_good fixed reads k br cs).2
+  exact ⟨this.1, this.2.1⟩
+
+/-- **cap_invariant** (variants of the read set): no variant position of the read set is spanned, first to
+last covered variant, by more than `k` selected reads -/
+theorem cap_invariant_own (fixed : Bool) (reads : List Read) (k : Nat) (br : Bool) (cs : List Nat) (sel : List Nat)
+    (h : readselection fixed reads k br cs = .ok sel) :
+    ∀ p ∈ positions reads, countSel reads sel p ≤ k := by
+  obtain ⟨-, rfl⟩ := ok_iff h
+  have := (phases_good fixed reads k br cs).2
+  intro p hp
+  exact Nat.le_trans (this.2.2.1 p) (this.2.2.2 p hp)
+
+/-- **terminates**: no loop of the model runs out of the fuel it is given, i.e. `readselection_helper`'s
+`while len(undecided_reads) > 0` ends after at most `len(undecided_reads)` iterations -/
+theorem terminates (fixed : Bool) (reads : List Read) (k : Nat) (br : Bool) (cs : List Nat) :
+    readselection fixed reads k br cs ≠ .outOfFuel := by
+  unfold readselection
+  split
+  · simp
+  · rename_i h2
+    split
+    · simp
+    · have ht := phases_terminate fixed reads k br cs (by
+        intro r hr
+        simp only [List.any_eq_true, decide_eq_true_eq, not_exists, not_and, Nat.not_lt] at h2
+        exact h2 r hr)
+      simp only
+      split
+      · rename_i hf
+        simp [ht.1, ht.2] at hf
+      · simp
+
+/-- the inner loops end with an empty queue (not by exhausting their fuel) -/
+theorem slice_terminates (reads : List Read) (P : List Nat) (k : Nat) (st : SliceSt) :
+    (sliceLoop reads P k st.pq.length st).pq = [] :=
+  sliceLoop_pq_nil reads P k _ st (Nat.le_refl _)
+
+theorem bridge_terminates (reads : List Read) (P : List Nat) (k : Nat) (st : BridgeSt) :
+    (bridgeLoop reads P k st.pq.length st).pq = [] :=
+  bridgeLoop_pq_nil reads P k _ st (Nat.le_refl _)
+
 end WhVerif.Props.C07
